@@ -45,6 +45,7 @@ type idKind struct {
 // hdr is a header: the parties of its stanzas in order, nil = a stanza of an
 // unknown type.
 type hdr struct {
+	nearTag bool // holds a near-tag stanza (tagvar.go)
 	names   []string
 	parties []*party
 	stanzas []refage.Stanza
@@ -256,7 +257,27 @@ func multiStages(r *mon.Run, ps map[string]*party) {
 			hdrs = append(hdrs, &hdr{parties: sel})
 		})
 	}
-	mon.Par(len(hdrs), func(i int) { hdrs[i] = buildHdr(hdrs[i].parties) })
+	// headers with a near-tag stanza of an encrypted identity's key (well-formed
+	// variants only: the plain identities in the lists must see "not mine")
+	vs := tagVariants("unused")
+	for _, of := range []*party{ps["enc_ed1"], ps["enc_rsa1"]} {
+		otherKind := ps["enc_rsa1"]
+		if of == otherKind {
+			otherKind = ps["enc_ed1"]
+		}
+		for vi, vn := range []string{"plus-1-A", "plus-2-A", "canonical-tag-plus-1-bytes", "canonical-tag-plus-2-bytes", "canonical-tag-plus-4-bytes",
+			"first-5-chars", "trailing-bits-1", "padded-2", "other-case", "shares-3-bytes"} {
+			pv := variantParty(of, pickVariant(vs, vn), vi%2 == 1)
+			for _, sel := range [][]*party{{pv, ps["X1"]}, {ps["X1"], pv}, {pv, otherKind}, {pv, of}, {of, pv}} {
+				hdrs = append(hdrs, &hdr{parties: sel, nearTag: true})
+			}
+		}
+	}
+	mon.Par(len(hdrs), func(i int) {
+		nt := hdrs[i].nearTag
+		hdrs[i] = buildHdr(hdrs[i].parties)
+		hdrs[i].nearTag = nt
+	})
 
 	kinds := []*idKind{
 		{"encrypted-ed25519", "enc_ed1", ps["enc_ed1"]},
@@ -279,6 +300,9 @@ func multiStages(r *mon.Run, ps map[string]*party) {
 	var jobs []job
 	for h := range hdrs {
 		for l := range lists {
+			if hdrs[h].nearTag && len(lists[l]) > 2 {
+				continue
+			}
 			jobs = append(jobs, job{h, l})
 		}
 	}
@@ -336,6 +360,9 @@ func decryptCase(r *mon.Run, fs *findings, h *hdr, ids []*liveID) {
 	r.Eval(1)
 	r.Count("multi_decrypt_cases", 1)
 	r.Distinct("multi|" + name)
+	if h.nearTag {
+		r.Count("multi_decrypt_cases_with_near_tag_stanza", 1)
+	}
 	if sensitive(h, ids, ender) {
 		r.Count("multi_cases_encrypted_identity_before_opener_type_stanza_after_other_type", 1)
 	}
